@@ -97,6 +97,16 @@ pub fn judge(prog: &Prog, goal: &Goal, program: &Program, g: &G, sol: &Sol, budg
     facts.closure_cycle = info.closure_cycle;
     facts.max_size = info.max_size;
     facts.exists_solutions = info.sols.len();
+    if info.unsat {
+        return (
+            match sol {
+                None => Verdict::Agree,
+                Some(Solution::Unique(_)) => Verdict::Contradiction { class: "unique-but-false".into(), detail: "solver says 'Unique' but the goal's equations alone have no solution (occurs check / constructor clash)".into() },
+                Some(_) => Verdict::Undecided("ambiguous-answer-to-unsatisfiable-equations".into()),
+            },
+            facts,
+        );
+    }
     let sol = match sol {
         None => {
             return if let Some(s) = info.sols.first() {
